@@ -61,7 +61,25 @@ def build_harness():
         sys.stdout.write(p.stdout[-6000:])
         raise ToolError("harness build failed")
     log(f"[build] harness built in {time.time() - t0:.1f}s")
+    build_overrides()
     return VH
+
+
+JCLS = os.path.join(ROOT, "work", "jcls")
+TLA_CP = "/opt/veriftools/tla/tla2tools.jar:/opt/veriftools/tla/CommunityModules-deps.jar"
+
+
+def build_overrides():
+    """Compile the Java evaluator overrides of spec/java (BigNat) if stale."""
+    src = os.path.join(SPEC, "java", "tlc2", "module", "BigNat.java")
+    cls = os.path.join(JCLS, "tlc2", "module", "BigNat.class")
+    if os.path.exists(cls) and os.path.getmtime(cls) >= os.path.getmtime(src):
+        return
+    os.makedirs(JCLS, exist_ok=True)
+    p = subprocess.run(["javac", "-cp", TLA_CP, "-d", JCLS, src], stdout=subprocess.PIPE, stderr=subprocess.STDOUT, text=True)
+    if p.returncode != 0:
+        sys.stdout.write(p.stdout[-3000:])
+        raise ToolError("javac failed on BigNat.java")
 
 
 def run_vh(args, timeout=3600, check=True, stdin=None):
@@ -104,7 +122,7 @@ COV_ACTION = re.compile(r"^<(\w+) line \d+, col \d+ to line \d+, col \d+ of modu
 
 
 def run_tlc(module, cfg, prop, env=None, workers=None, timeout=1800, simulate=None,
-            coverage=False, depth_first=False, extra=None, heap=None):
+            coverage=False, depth_first=False, extra=None, heap=None, overrides=True):
     """Run TLC in SPEC dir. Returns dict(out, rc, generated, distinct, violated, actions)."""
     e = dict(os.environ)
     jopts = "-Xss1g"
@@ -121,10 +139,7 @@ def run_tlc(module, cfg, prop, env=None, workers=None, timeout=1800, simulate=No
     cmd = ["timeout", str(timeout), "java"]
     if heap:
         cmd += [f"-Xmx{heap}"]
-    cmd += ["-XX:+UseParallelGC", "-cp", "/opt/veriftools/tla/tla2tools.jar:/opt/veriftools/tla/CommunityModules-deps.jar",
-            "tlc2.TLC"]
-    # fall back to the `tlc` wrapper (classpath handled there)
-    cmd = ["timeout", str(timeout), "tlc"]
+    cmd += ["-XX:+UseParallelGC", "-cp", (JCLS + ":" if overrides else "") + TLA_CP, "tlc2.TLC"]
     cmd += ["-workers", str(workers or 1), "-metadir", meta, "-cleanup", "-noGenerateSpecTE"]
     if coverage:
         cmd += ["-coverage", "1"]
